@@ -398,7 +398,7 @@ class Writer:
             return rets[0][1]
         cond = g0[0][0]
         t = [(g[1:], v) for g, v in rets if g and g[0] == (cond, True)]
-        f = [(g[1:], v) for g, v in rets if not (g and g[0] == (cond, True))]
+        f = [(g, v) for g, v in rets if not (g and g[0] == (cond, True))]
         f = [((g[1:] if g and g[0] == (cond, False) else g), v) for g, v in f]
         return Seq([('ALT', cond, self._merge(t) if t else Seq(), self._merge(f) if f else Seq())])
 
@@ -426,7 +426,18 @@ def normalise(seq):
                 n = len(a[0][1])
                 out.append(('F', 'B' if n == 1 else '>H', 'ite(%s, %d, %d)' % (it[1], int.from_bytes(a[0][1], 'big'), int.from_bytes(b[0][1], 'big'))))
             else:
-                out.append(('ALT', it[1], a, b))
+                # common prefix / suffix of the two branches is emitted unconditionally
+                pre = 0
+                while pre < len(a) and pre < len(b) and a[pre] == b[pre]:
+                    pre += 1
+                suf = 0
+                while suf < len(a) - pre and suf < len(b) - pre and a[len(a) - 1 - suf] == b[len(b) - 1 - suf]:
+                    suf += 1
+                out.extend(a[:pre])
+                ma, mb = Seq(a[pre:len(a) - suf]), Seq(b[pre:len(b) - suf])
+                if ma or mb:
+                    out.append(('ALT', it[1], ma, mb))
+                out.extend(a[len(a) - suf:] if suf else [])
         elif it[0] == 'XF':
             out.append(('XF', it[1], normalise(it[2])))
         else:
